@@ -1293,7 +1293,7 @@ def derive_rich_footprints(sim, cases, d):
                 if w[1] == "bias" and w[2].isdigit() and int(w[2]) < len(c["biases"]):
                     b = c["biases"][int(w[2])]
                     stateless = b["kind"] in ("harmonic", "walls", "linear") and not any("targetCenters" in x for x in b["lines"])
-                    if not stateless and "NOTREPEATABLE" not in l:
+                    if not stateless and "NOTREPEATABLE" not in l and "RESTORED" not in l:
                         # a bias with private state (hills, samples, moving centres): the perturbation probe cannot tell what it reads
                         R = []
                         nrep += 1
